@@ -456,7 +456,7 @@ def shipped_spaces():
 
 def gen_scripts(ck, tier):
     """list of (tag, script lines, counts)"""
-    n_pairs, n_rand_sp, n_rand_t, n_rep = (10, 70, 2, 3) if tier == "quick" else (60, 600, 6, 8)
+    n_pairs, n_rand_sp, n_rand_t, n_rep = (40, 300, 3, 4) if tier == "quick" else (150, 2500, 6, 8)
     scripts = []
     spaces = [("shipped", sp) for sp in shipped_spaces()]
     r0 = ck.rng.fork("spaces")
@@ -604,8 +604,10 @@ def oracle_line(sp, line, out):
         cls = "out of bounds"
         if i is not None and lv[i]["kind"] == "so2":
             cls = so2_class(a[i][0], b[i][0], vals(lv[i], split_state(lv, rt)[i])[0]) if key == "r" else "so2 component out of [-pi, pi)"
-        if i is not None and lv[i]["kind"] == "so2" and lv[i]["owner"] == "klein":
-            cls = "v == +pi" if vals(lv[i], split_state(lv, rt)[i])[0] == PI else "v outside [-pi, pi]"
+        if i is not None and lv[i]["kind"] == "so2" and lv[i]["owner"] == "klein" and key == "r" and i > 0 \
+                and abs(b[i - 1][0] - a[i - 1][0]) > 0.5 * PI:
+            # Klein's own copy of the SO(2) wrap (seam branch); its cylinder branch is the SO(2) clause above
+            cls = "seam-branch v == +pi" if vals(lv[i], split_state(lv, rt)[i])[0] == PI else "seam-branch v outside [-pi, pi]"
         if i is not None and lv[i]["kind"] in ("rv", "time") and lv[i]["lo"] is not None:
             if ulp_out(lv[i], vals(lv[i], split_state(lv, rt)[i])) <= 4.0:
                 cls = "rounding: <= 4 ulp(max |bound|) outside the box (satisfiesBounds has only an absolute DBL_EPSILON slack)"
@@ -668,7 +670,18 @@ def oracle_line(sp, line, out):
             if not d <= slack:
                 rs, ds = split_state(lv, f["r"]), split_state(lv, f["direct"])
                 owners = sorted(set(lf["owner"] for lf, x, y in zip(lv, rs, ds) if not leaf_close(lf, vals(lf, x), vals(lf, y))))
-                fails.append({"clause": "reparam", "culprit": "+".join(owners) or sp[0], "class": "distance beyond slack",
+                cls = "distance beyond slack"
+                if owners == ["klein"]:
+                    # Klein seam branch: before the crossing the v-arc is chosen between from.v and mirror(to.v),
+                    # after it between mirror(from.v) and to.v; when those are half a turn apart (|diffV| = pi up
+                    # to rounding) the two choices can be opposite arcs and v jumps at the crossing (F18)
+                    for i, lf in enumerate(lv):
+                        if lf["owner"] == "klein" and lf.get("role") == "u" and abs(b[i][0] - a[i][0]) > 0.5 * PI:
+                            v1, v2 = a[i + 1][0], b[i + 1][0]
+                            m2 = (PI - v2) if v2 > 0 else (-PI - v2)
+                            if abs(abs(m2 - v1) - PI) <= 1e-6:
+                                cls = "klein seam branch, mirror(to.v) half a turn from from.v (tie between the two arcs)"
+                fails.append({"clause": "reparam", "culprit": "+".join(owners) or sp[0], "class": cls,
                               "what": "interpolate(interpolate(a,b,s),b,u) is %.6g away from interpolate(a,b,s+(1-s)u) (s=%r,u=%r)" % (d, s, u)})
     return fails
 
